@@ -211,6 +211,7 @@ fn base(seed: u64, r: &mut Rng, max_len: usize, max_depth: usize, srcs: &[Src]) 
         faults: vec![],
         starve_release: release,
         quiet: 0,
+        pre: 0,
     };
     gen_params(r, &mut scn);
     scn
@@ -285,6 +286,23 @@ fn gen_with_index(r: &mut Rng, scn: &mut Scenario) {
 }
 
 pub fn generate(prop: &str, seed: u64) -> Scenario {
+    let mut scn = generate_inner(prop, seed);
+    // one scenario in sixteen starts from a partially consumed concurrent iterator
+    if matches!(prop, "C01" | "C02" | "C03" | "C04" | "C07") && scn.src != Src::IterEndless {
+        let mut r = Rng::stream(seed, 0x9AE);
+        if r.chance(1, 16) && !scn.vals.is_empty() {
+            scn.pre = r.range(1, scn.vals.len().min(6));
+            // placed predicates refer to ids that may have been consumed: place them again
+            refresh_pred(&mut r, &mut scn);
+            if let Term::FindWithIndex(_) = scn.term {
+                scn.term = Term::FindWithIndex(gen_pred(&mut r, &scn));
+            }
+        }
+    }
+    scn
+}
+
+fn generate_inner(prop: &str, seed: u64) -> Scenario {
     let mut r = Rng::stream(seed, 0x3017);
     let r = &mut r;
     match prop {
@@ -856,6 +874,7 @@ fn gen_c15(seed: u64, r: &mut Rng, huge: bool) -> Scenario {
         faults: vec![],
         starve_release: release,
         quiet: 0,
+        pre: 0,
     };
     match pipe {
         0 => {
